@@ -55,11 +55,20 @@ theorem mapOpen_inv {P : Client → Prop} {st : State} {f : Update.Client → Up
 
 /-! ### field-preservation facts of the per-client functions -/
 
-@[simp] theorem setEncodings_isOpen (s : Screen) (c : Client) (cr cs nf ext : Bool) :
-    (setEncodings s c cr cs nf ext).base.isOpen = c.base.isOpen := by
-  unfold setEncodings Update.setEncodings
+theorem dropCopy_isOpen (b : Update.Client) : (Update.dropCopy b).isOpen = b.isOpen := by
+  unfold Update.dropCopy
+  split <;> rfl
+
+theorem setEncodings0_isOpen (s : Update.Screen) (b : Update.Client) (cr cs : Bool) :
+    (Update.setEncodings0 s b cr cs).isOpen = b.isOpen := by
+  unfold Update.setEncodings0
   simp only
   split <;> rfl
+
+@[simp] theorem setEncodings_isOpen (s : Screen) (c : Client) (cr cs nf ext : Bool) :
+    (setEncodings s c cr cs nf ext).base.isOpen = c.base.isOpen := by
+  show (Update.dropCopy (Update.setEncodings0 s.base c.base cr cs)).isOpen = c.base.isOpen
+  rw [dropCopy_isOpen, setEncodings0_isOpen]
 
 theorem markRegion_isOpen (b : Update.Client) (r : Region) : (markRegion b r).isOpen = b.isOpen := rfl
 
